@@ -88,6 +88,7 @@ type leaf struct {
 	wantErr  bool          // LogError reaches the sink
 	async    bool          // ring buffered: may drop, must report
 	dropped  *droppedCounter
+	ring     int // ring-buffered: capacity of the ring
 	since    int64 // logical time from which the leaf is a member (0 = from the start); before joinBegin: must not receive
 	joinFrom int64 // logical time at which the Append that added it began
 }
@@ -261,10 +262,10 @@ func (b *builder) build(c Config) (logs.Loggers, []*leaf, error) {
 		var err error
 		if c.Kind == "async" {
 			l, err = logs.NewAsynchronousLoggers(o, e, c.Ring, 200*time.Microsecond, "src", "log-src", dc)
-			return l, []*leaf{{name: name, out: o.String, err: e.String, wantOut: true, wantErr: true, async: true, dropped: dc}}, err
+			return l, []*leaf{{name: name, out: o.String, err: e.String, wantOut: true, wantErr: true, async: true, dropped: dc, ring: c.Ring}}, err
 		}
 		l, err = logs.NewJSONLoggerForSlowWriter(o, c.Ring, 200*time.Microsecond, "src", "log-src", dc)
-		return l, []*leaf{{name: name, out: o.String, err: o.String, same: true, wantOut: true, wantErr: true, async: true, dropped: dc}}, err
+		return l, []*leaf{{name: name, out: o.String, err: o.String, same: true, wantOut: true, wantErr: true, async: true, dropped: dc, ring: c.Ring}}, err
 	case "multiple", "combined":
 		var members []logs.Loggers
 		var leaves []*leaf
@@ -439,10 +440,20 @@ func checkCase(t ev.T, test string, c Case) {
 		if !lf.async {
 			continue
 		}
+		// "quiet" = nothing new for 600 ms (on a loaded machine the goroutine draining the ring may not run for tens of
+		// milliseconds: a short silence proves nothing), or everything sent is accounted for
 		last, quiet := -1, 0
-		deadline := time.Now().Add(5 * time.Second)
-		for quiet < 5 && time.Now().Before(deadline) {
-			n := len(lf.out()) + len(lf.err())
+		deadline := time.Now().Add(15 * time.Second)
+		for quiet < 300 && time.Now().Before(deadline) {
+			o, e := lf.out(), lf.err()
+			n := len(o) + len(e)
+			lines := strings.Count(o, "\n")
+			if !lf.same {
+				lines += strings.Count(e, "\n")
+			}
+			if int64(lines)+lf.dropped.Total() >= int64(len(all)) {
+				break
+			}
 			if n == last {
 				quiet++
 			} else {
